@@ -188,7 +188,7 @@ def binary_cases(draw, tier):
     s2 = draw(gen.tt_specs(shape=s1["n"], **kw))
     s3 = draw(gen.tt_specs(d_max=3, size_max=64, r_max=3))
     return {"Y1": s1, "Y2": s2, "Y3": s3, "c": draw(gen.numbers), "c2": draw(gen.numbers),
-            "I": draw(gen.indices(s1["n"], m_max=12)), "y": draw(st.lists(gen.reals(-5, 5), min_size=12, max_size=12))}
+            "I": draw(gen.indices(s1["n"], m_max=12)), "y": draw(st.lists(gen.reals(-5, 5), min_size=12, max_size=12)), "yscale10": draw(st.sampled_from([0, 0, 0, -20, -30, 20]))}
 
 
 def interval_ratio(ctx, got, num2, tnum, den2, tden, what):
@@ -271,13 +271,13 @@ def prop_binary(case, ctx):
         ref = math.sqrt(num2) / math.sqrt(den2)
         ctx.check(abs(got - ref) <= 1e-10 * ref, "accuracy(ndarray)", got=float(got), ref=ref)
     Iarr = np.array(case["I"], dtype=int)
-    y = np.array(case["y"][:len(Iarr)])
+    y = np.array(case["y"][:len(Iarr)]) * 10.0 ** case.get("yscale10", 0)       # data far smaller / larger than the tensor, too
     ny = float(np.linalg.norm(y))
     if ny > 0:
         vals = F1[tuple(Iarr.T)]
         tv = (K * EPS * A1)[tuple(Iarr.T)]
         ref = float(np.linalg.norm(vals - y)) / ny
-        got = ctx.lib(teneva.accuracy_on_data, Y1, case["I"], case["y"][:len(Iarr)])
+        got = ctx.lib(teneva.accuracy_on_data, Y1, case["I"], y.tolist())
         ctx.check(abs(got - ref) <= float(np.linalg.norm(tv)) / ny + 1e-12 * ref, "accuracy_on_data", got=float(got), ref=ref)
 
 
